@@ -13,7 +13,7 @@ RULE = ("Wrapper chains of length 1..7 over synthetic manager objects (unwrap_co
         "@contextmanager functions (with an unwrap_context_generator hook returning None / next / PRUNE, without a hook, one "
         "delegating with `yield from`, and one holding a manager of its own whose context the hook must see on its Frame); is_exiting on or off; each case run three ways - fill_context(Context(...)) outside any "
         "extraction, the same from inside a hook of a running extract(), and (non-exiting) through a real frame holding the "
-        "head manager in a with block - on CPython 3.9-3.12. Oracle: a reference loop over the documented rule gives the "
+        "head manager in a with block followed by a second, independent wrapped manager that must be filled whatever happens to the first - on CPython 3.9-3.12. Oracle: a reference loop over the documented rule gives the "
         "expected hook-invocation log (elaborate on the original, unwrap, reset, elaborate again, ...) and the expected final "
         "obj / hide / description / inner_stack / children; the generator hook must receive the generator's outermost frame on "
         "both paths (inner stack present; exiting); a cycle must end in the 100-step RuntimeError; the three ways must agree. "
@@ -109,6 +109,9 @@ def judge(case, res):
         got = res[mode]
         if got.get("warnings"):
             return "%s: warnings %r" % (mode, got["warnings"])
+        if mode == "frames" and got.get("tail_ok") is False:
+            return "frames: a later context of the same frame was not filled (its hooks did not run to steady state): %r" % (
+                got.get("tail"),)
         if exp["error"]:
             if got["error"] != "RuntimeError":
                 return "%s: expected the 100-step RuntimeError, got error=%r" % (mode, got["error"])
